@@ -20,7 +20,7 @@ func init() {
 			"R11-block — on every path on which L.ctx is known non-nil, each potentially blocking channel operation (reflect Send/Recv/Select, native channel ops) is a select that includes a receive from L.ctx.Done(); R12-loops shared. " +
 			"R11-threadctx — a new thread's context is derived from the state's context (the main thread's), not from the context of the coroutine that creates it, which is cancelled when that coroutine finishes: a context that is never done cannot change what nested coroutines do. NOT decided: promptness inside long-running host functions (string.rep, pattern matching, table.sort), the 'bounded by call depth' count.",
 		Trusted: []string{"context.Context.Done() is closed when the context is done (stdlib contract)"},
-		Rules:   []func(*Ctx){ruleChainLoopsCounted, ruleResumeConsultsContext, ruleSelectDispatchesFiredCase, ruleProtectedCallConsultsContext, rulePoll, ruleLoopSel, ruleBlock, ruleLoops, ruleThreadCtx, ruleHandlerLoopsBounded},
+		Rules:   []func(*Ctx){ruleCoroutineFromItsCreator, ruleChainLoopsCounted, ruleResumeConsultsContext, ruleSelectDispatchesFiredCase, ruleProtectedCallConsultsContext, rulePoll, ruleLoopSel, ruleBlock, ruleLoops, ruleThreadCtx, ruleHandlerLoopsBounded},
 	})
 }
 
